@@ -664,6 +664,16 @@ var mutators = []mutator{
 		b.FundingAgreement = b.InitBals.Balances.Clone()
 		return true
 	}},
+	{"hub-share>hub-balance-in-parent", "virtual", func(rng *rand.Rand, a *arena, p client.ChannelProposal) bool {
+		// what the hub has to put up in the receiver's parent (the proposer's share, virtual
+		// participant 0 -> parent index 1) exceeds the hub's balance there
+		b := p.Base()
+		cur := a.hubCh.State()
+		i := rng.Intn(len(b.InitBals.Balances))
+		b.InitBals.Balances[i][0] = new(big.Int).Add(cur.Balances[i][1], big.NewInt(1))
+		b.FundingAgreement = b.InitBals.Balances.Clone()
+		return true
+	}},
 	{"other-asset", "virtual", func(rng *rand.Rand, a *arena, p client.ChannelProposal) bool {
 		b := p.Base()
 		b.InitBals.Assets[rng.Intn(len(b.InitBals.Assets))] = gen.Asset(rng)
@@ -677,7 +687,8 @@ func newArena(rng *rand.Rand) (*arena, string) {
 	a.V, a.M, a.S, a.I = a.w.NewParty("V", 100000), a.w.NewParty("M", 100000), a.w.NewParty("S", 100000), a.w.NewParty("I", 100000)
 	pp := ledgerProposal(rng, a.w, a.M, a.V, true)
 	for i := range pp.InitBals.Balances {
-		pp.InitBals.Balances[i] = []channel.Bal{big.NewInt(50), big.NewInt(50)}
+		// asymmetric on purpose: checks that compare against the wrong participant must show
+		pp.InitBals.Balances[i] = []channel.Bal{big.NewInt(int64(25 + rng.Intn(60))), big.NewInt(int64(25 + rng.Intn(60)))}
 	}
 	pp.FundingAgreement = pp.InitBals.Balances.Clone()
 	chM, err := propose(a.M, pp)
@@ -687,7 +698,7 @@ func newArena(rng *rand.Rand) (*arena, string) {
 	a.parent = a.V.AwaitChannel(chM.ID())
 	ph := ledgerProposal(rng, a.w, a.V, a.I, true)
 	for i := range ph.InitBals.Balances {
-		ph.InitBals.Balances[i] = []channel.Bal{big.NewInt(50), big.NewInt(50)}
+		ph.InitBals.Balances[i] = []channel.Bal{big.NewInt(int64(25 + rng.Intn(60))), big.NewInt(int64(25 + rng.Intn(60)))}
 	}
 	ph.FundingAgreement = ph.InitBals.Balances.Clone()
 	a.hubCh, err = propose(a.V, ph)
